@@ -28,6 +28,14 @@ CLAIMED = {
              ref="DESIGN.md §4.2, §5 C18", technique="Lean 4 proof + relational (metamorphic) correspondence on the real crate"),
  'C14': dict(text="Translator + theorems: the table of tuple Clause impls is regenerated from src/clause.rs and `decide` re-proves that arities are exactly 2..16 and every impl deconstructs fields 0..n-1 in order; for any such table, deconstructing a clause tree of any shape/arity/depth equals listing its terminals left to right (induction on tree size); assembly fails iff some terminal offends (unproducible return, empty stub, mode different from the one first registered for its method at any distance), with the first offender's error, proved via an invariant relating the assembler's table to the accepted prefix. Tie: real Rust tuples of every arity 2..16 and random nestings, offenders at every position. Partial: the compile-time half (ordered => exact counts, then() after exact) is not yet covered by this check.",
              ref="DESIGN.md §4.2, §5 C14", technique="source-to-Lean translator for the tuple-impl table + Lean 4 proof (decide over table, induction over clause trees, assembler invariant) + correspondence with real tuples"),
+ 'C10': dict(text="Theorems quantify over EVERY list of atomic actions (any threads, any schedule): the positions handed to the matches of a pattern are c, c+1, .., c+N-1 in execution order and the counter ends at c+N (no lost or duplicated match); ordered slot numbers likewise; final counters and ordered index are invariant under any permutation of the actions (= any other interleaving), hence the verdict equals the sequential one; every racing error push is kept. Tie: real OS threads under a controlled scheduler that preempts before every instrumented atomic operation / lock acquisition; ALL schedules (DFS) of small scenarios replayed on the Lean interleaving model (picks, tag sequence, outcomes, counters, log, verdict) and judged by a model-free linearizability oracle (real concurrent run = some real sequential run); plus 16-thread uninstrumented stress.",
+             ref="DESIGN.md §4.5, §5 C10", technique="Lean 4 proof over arbitrary action interleavings + exhaustive schedule exploration of the real crate (controlled scheduler) + linearizability oracle",
+             note=RUNTIME_NOTE + " Partial with respect to weak memory: the scheduler and the model are sequentially consistent; SeqCst->Relaxed changes are invisible to them."),
+ 'C12': dict(text="Theorems (every list of atomic actions): requests for one single-use slot are answered true exactly for the first request on a full slot and false for all others; delivered <= 1 and delivered = 1 iff the slot ends empty; repeatable responders are never modified; only returns(v)[.once()] on some_call/next_call stores a single-use slot and such a segment advances by at most 1. Tie: all schedules of 1-4 threads racing for single-use and repeatable values (linearizability + at-most-one-delivery + every-caller-served oracles). Partial: owned leaves inside composites and the compile-time refusal are covered by C17's harness once built; not yet part of this check.",
+             ref="DESIGN.md §4.5, §4.6, §5 C12", technique="Lean 4 proof over arbitrary action interleavings + exhaustive schedule exploration + oracles"),
+ 'C13': dict(text="Theorems on the value-chain model: a new reference reads its own value; every earlier reference keeps its node and value under any number of further pushes; push drops nothing, push_mut releases exactly the earlier values once, Drop releases the rest once; for racing try_insert loops under ANY schedule the chain only grows at the end (earlier nodes untouched) and a successful pusher's reference denotes a node holding its own value forever after. Tie: random make_ref/make_mut sequences on ValueChain, original and clone compared line by line with the model (reads of all retained references after every op, drop log); all schedules of 2-4 threads lending through a shared reference (yield before every try_insert) and an 8-thread uninstrumented stress, judged by an oracle.",
+             ref="DESIGN.md §4.6, §5 C13", technique="Lean 4 proof (induction over pushes and over schedules) + differential correspondence + schedule exploration/stress with oracle",
+             note=RUNTIME_NOTE + " Memory safety proper is trusted to forbid(unsafe_code), the borrow checker and once_cell."),
 }
 
 checks = []
